@@ -169,15 +169,19 @@ def run_c12(prop, spec, tier, seed, args):
             "part2_sinks": len(results), "part2_sinks_clean": sum(1 for r in results if r["verdict"] == "holds"),
             "part2_samples": results[:6] + [r for d, f, r in findings][:4],
         }
-        ev = pmhv.write_evidence(prop, spec, tier, seed, run, extra_cov=extra)
+        if getattr(args, "only", None):
+            ev = None
+        else:
+            ev = pmhv.write_evidence(prop, spec, tier, seed, run, extra_cov=extra)
+    finally:
+        shutil.rmtree(work, ignore_errors=True)
+    if ev is not None:
         ev["coverage"]["evaluations"] += len(results)
         ev["coverage"]["distinct_nontrivial"] += sum(1 for r in results if r["verdict"] != "inconclusive")
         ev["violations"] = len(run["violations"]) + len([l for l in vlines if l.startswith("VIOLATION")])
         ev["wall_s"] = round(time.time() - t0, 1)
         with open(os.path.join(pmhv.EVIDENCE_DIR, prop + ".json"), "w") as fh:
             json.dump(ev, fh, indent=1)
-    finally:
-        shutil.rmtree(work, ignore_errors=True)
     for l in known + vlines:
         print(l)
     for u in undec:
